@@ -173,7 +173,7 @@ struct C05 : public Driver {
         // every generated stylesheet writes one document element with the xml output method: without a fault, output that does not parse is wrong whatever the forms agree on
         if (ref.status == 0 && !ref.threw && !refIsDocument && !faulty) res.violate("expected-output", "well-formed-xml", "the xml output of the reference form does not parse: " + refCanon.substr(0, 200));
         // observations whose content the generator knows beforehand (every form shares the engine, so agreement between forms says nothing about them)
-        if (refIsDocument && plan.has("expect")) for (auto& e : plan.at("expect").a) {
+        if (refIsDocument && !faulty && plan.has("expect")) for (auto& e : plan.at("expect").a) {      /* a flipped bit can leave a valid stylesheet that means something else (the XSLT namespace URI one character off: everything becomes literal result elements) */
             if (e.a.size() != 2) continue; const std::string mk = "^f=" + e.a[0].s + ";"; size_t q = refCanon.find(mk); if (q == std::string::npos) continue;
             size_t end = refCanon.find("E{|o|^f=", q); const std::string rec = refCanon.substr(q, end == std::string::npos ? std::string::npos : end - q); res.count("expected_outputs_checked");
             if (rec.find(e.a[1].s) == std::string::npos) res.violate("expected-output", e.a[0].s, "the observation of feature " + e.a[0].s + " is [" + rec.substr(0, 300) + "], it must contain [" + e.a[1].s + "]");
